@@ -7,6 +7,7 @@
 (*   Submit(b)   ProcessHeader                                             *)
 (*   Clean       Clean (consolidate, save main chain, prune memory)        *)
 (*   Save/Load   Save, then Load into a fresh Repository on the same store *)
+(*   LoadLegacy  Load on a store holding only version-0 files (migration)  *)
 (*   Mark/Unmark MarkHeaderInvalid / MarkHeaderNotInvalid                  *)
 (*   Subscribe   GetNewHeadersAvailableChannel                             *)
 (*                                                                         *)
@@ -141,6 +142,14 @@ Load == /\ disk.has /\ last.op = "save"
         /\ last' = [op |-> "load", b |-> 0, verdict |-> "ok", delta |-> <<>>]
         /\ UNCHANGED <<parent, work, ever, disk>>
 
+\* Load on a store written before branches existed: version-0 main-chain files holding the chain to block
+\* b and nothing else (b = 0: an empty store, the repository starts from genesis).  The code migrates the
+\* files and keeps the whole chain in memory.  Only possible as the first operation.
+LoadLegacy(b) == /\ last.op = "init"
+                 /\ acc' = Anc(b) /\ ever' = Anc(b) /\ tip' = b
+                 /\ last' = [op |-> "legacy", b |-> b, verdict |-> "ok", delta |-> <<>>]
+                 /\ UNCHANGED <<parent, work, invalid, subs, floorB, unsure, disk>>
+
 Subscribe == /\ Len(subs) < MaxSubs
              /\ subs' = Append(subs, ChainOf(tip))
              /\ last' = [op |-> "subscribe", b |-> 0, verdict |-> "ok", delta |-> <<>>]
@@ -164,12 +173,12 @@ Unmark(b) == /\ b \in invalid
              /\ UNCHANGED <<parent, work, acc, ever, tip, subs, floorB, unsure, disk>>
 
 Next == \/ \E b \in Blocks : Submit(b)
-        \/ Clean \/ Save \/ Load \/ Subscribe
+        \/ Clean \/ Save \/ Load \/ Subscribe \/ (\E b \in AllB : LoadLegacy(b))
         \/ \E b \in Blocks : Mark(b) \/ Unmark(b)
 Spec == Init /\ [][Next]_vars
 NextCore == (\E b \in Blocks : Submit(b)) \/ Subscribe
 SpecCore == Init /\ [][NextCore]_vars
-NextMaint == (\E b \in Blocks : Submit(b)) \/ Clean \/ Save \/ Load
+NextMaint == (\E b \in Blocks : Submit(b)) \/ Clean \/ Save \/ Load \/ (\E b \in AllB : LoadLegacy(b))
 SpecMaint == Init /\ [][NextMaint]_vars
 NextMark == (\E b \in Blocks : Submit(b) \/ Mark(b) \/ Unmark(b)) \/ Save \/ Load
 SpecMark == Init /\ [][NextMark]_vars
